@@ -644,8 +644,10 @@ impl CircuitBuilder {
     }
 
     pub fn push_panic_if(&mut self, cond: GateIndex, reason: PanicReason, meta: MetaInfo) {
-        if let Some(existing_panic) = self.panic_gates.cache.get(&cond) {
-            self.panic_gates.result = existing_panic.clone();
+        if self.panic_gates.cache.contains_key(&cond) {
+            // The same condition has already been merged into the current panic record (every
+            // cached condition is part of `has_panicked`), so there is nothing to add. The record
+            // must not be reset to the cached one: that would drop all panics recorded since.
             return;
         }
         let already_panicked = self.panic_gates.result.has_panicked;
@@ -722,10 +724,9 @@ impl CircuitBuilder {
         keys.dedup();
         for k in keys.iter() {
             match (cache_t.get(k), cache_f.get(k)) {
-                (None, None) => {}
-                (None, Some(result)) | (Some(result), None) => {
-                    cache.insert(*k, result.clone());
-                }
+                // A condition that was only checked in one of the branches is not part of the
+                // merged record whenever the other branch is taken, so it must be checked again:
+                (None, None) | (None, Some(_)) | (Some(_), None) => {}
                 (Some(t), Some(f)) => {
                     cache.insert(*k, self.mux_uncached_panic(condition, t, f));
                 }
